@@ -3,8 +3,7 @@
 // "exactly the selected components, nothing else"); all 64 masks; borrowed and
 // owned start states; twice == once; the reported mask is sufficient; mask 0 =>
 // already normal.
-#include "gen.hpp"
-#include "parse_common.hpp"
+#include "hist.hpp"
 #include "pathenum.hpp"
 
 using namespace vf;
@@ -22,6 +21,15 @@ static std::string g_norm_uri(Tape &t) {
 }
 static Fields gen(Tape &t) {
   Fields f;
+  // one case in six: the URI to normalise is an object a short history of library calls left behind (resolved, created,
+  // normalised with a partial mask, owned, read back), normalised as it stands; the model is fed with its text
+  if (t.below(6) == 5) {
+    int hi = t.weighted({4, 3, 2, 1});
+    int mask = t.chance(1, 2) ? 63 : (int)t.below(64);
+    ops_to_fields(f, g_history(t, SEG_ANY, false, 5));
+    f.seti("hi", hi); f.seti("mask", mask);
+    return f;
+  }
   LongMode lm(t);
   if (lm.on()) f.seti("long", 1);
   f.set("text", g_norm_uri(t));
@@ -108,6 +116,63 @@ template <class A> static Verdict norm_once(const std::string &text, const MUri 
   return Verdict::pass();
 }
 
+static bool matches_model(const MUri &in, unsigned mask, const std::string &got, std::string *want) {
+  MNormed e = m_normalize(in, mask);
+  MUri x = e.u;
+  x.path = e.path.primary;
+  *want = m_recompose(x);
+  if (got == *want) return true;
+  for (auto &alt : e.path.also) { x.path = alt; if (got == m_recompose(x)) { stats().relax("path_corner_alternative_spelling"); return true; } }
+  return false;
+}
+
+// the history is run twice (it is deterministic): one copy of the chosen object is normalised with the requested mask,
+// the other with the mask the query reports for it
+template <class A> static Verdict check_history(const Fields &f, std::string *desc, bool *changed) {
+  World<A> w1, w2;
+  for (auto &op : ops_from_fields(f)) { w1.exec(op); w2.exec(op); }
+  std::vector<int> rs;
+  for (int k : w1.made_first()) if (!w1.borrowed_by_others(k)) rs.push_back(k);
+  if (rs.empty()) return Verdict::discard();
+  int i = rs[(size_t)f.geti("hi") % rs.size()];
+  std::string text, text2;
+  if (!w1.faithful_text(i, &text) || !w2.faithful_text(i, &text2) || text != text2) { stats().hit("history_operand_not_text_faithful"); return Verdict::pass(); }
+  MUri in = m_split(text);
+  unsigned mask = (unsigned)f.geti("mask");
+  std::string origin = w1.at(i).origin;
+  *desc = "(" + origin + ")=" + esc(text) + " mask=" + std::to_string(mask);
+  auto fail = [&](const std::string &m, const std::string &klass = "") { return Verdict::fail(std::string(A::name()) + ": object out of a history " + *desc + ": " + m, klass); };
+  typename A::Uri &u = w1.at(i).uri, &u2 = w2.at(i).uri;
+  unsigned m1 = A::NormalizeSyntaxMaskRequired(&u), m2 = 0xffff;
+  if (A::NormalizeSyntaxMaskRequiredEx(&u, &m2) != 0 || m1 != m2 || m1 >= 64) return fail("the mask queries fail or disagree");
+  int rc = A::NormalizeSyntaxEx(&u, mask);
+  if (mask) w1.at(i).borrows.clear();
+  if (rc != 0) return fail("normalisation rc=" + std::to_string(rc));
+  std::string wf = wellformed<A>(u);
+  if (!wf.empty()) return fail("not well formed after normalisation: " + wf);
+  std::string t1, want;
+  if (!to_string<A>(u, &t1)) return fail("uriToString failed after normalisation");
+  if (!matches_model(in, mask, t1, &want)) return fail("normalised to '" + esc(t1) + "', expected '" + esc(want) + "'", classify(in, mask, false, t1));
+  if (A::NormalizeSyntaxEx(&u, mask) != 0) return fail("second normalisation failed");
+  std::string t2;
+  if (!to_string<A>(u, &t2)) return fail("uriToString failed after the second normalisation");
+  if (t2 != t1) return fail("'" + esc(t1) + "' -> '" + esc(t2) + "': applying it twice differs from once", classify(in, mask, true, t2));
+  // the reported mask is sufficient (second copy), and zero means "already normal"
+  rc = A::NormalizeSyntaxEx(&u2, m1);
+  if (m1) w2.at(i).borrows.clear();
+  if (rc != 0) return fail("normalisation with the reported mask rc=" + std::to_string(rc));
+  std::string viaMask, full;
+  if (!to_string<A>(u2, &viaMask)) return fail("uriToString failed after normalising with the reported mask");
+  matches_model(in, 63, "", &full);
+  if (mask == 63) full = t1;
+  else { MNormed e = m_normalize(in, 63); if (e.path.corner) full = viaMask; }  // corner spellings: only the library's own full result is a fair reference
+  if (viaMask != full) return fail("reported mask " + std::to_string(m1) + " is not sufficient: '" + esc(viaMask) + "' vs full '" + esc(full) + "'");
+  if (m1 == 0 && viaMask != text) return fail("mask query says 0 but the text changes");
+  stats().hit("history_origin=" + origin.substr(0, 1));
+  if (t1 != text) *changed = true;
+  return Verdict::pass();
+}
+
 template <class A> static Verdict check_type(const std::string &text, const MUri &in, bool useMm, int *changedComponents, bool *dots) {
   using Ch = typename A::Ch;
   std::string full, none;
@@ -158,6 +223,17 @@ template <class A> static Verdict check_type(const std::string &text, const MUri
 }
 
 static Verdict check(const Fields &f) {
+  if (f.has("n")) {
+    for (auto &op : ops_from_fields(f)) if (op.kind == 'P' && !uriref_matcher().matches(op.text)) return Verdict::discard();
+    std::string d, d2; bool ch = false;
+    Verdict v = check_history<Api<char>>(f, &d, &ch);
+    if (v.kind != Verdict::PASS) return v;
+    v = check_history<Api<wchar_t>>(f, &d2, &ch);
+    if (v.kind != Verdict::PASS) return v;
+    stats().hit("arm=operand_from_history");
+    if (ch) stats().nontrivial(f.text(), d);
+    return Verdict::pass();
+  }
   std::string text = f.get("text");
   if (!uriref_matcher().matches(text)) return Verdict::discard();
   MUri in = m_split(text);
